@@ -5,21 +5,16 @@ import (
 	"strings"
 )
 
-// C18: the ordered system-call sequence of util.WriteFileAtomic (success path and deferred error path) and, for each
-// of the three Store functions, the ordered list of calls that marshal or touch the file system.
+// C18: the ordered file-system call sequence of util.WriteFileAtomic (success path and deferred error path) and, for each
+// of the three Store functions and the four Lock/Unlock methods, what they do to the file system.
 // Behaviour cannot reveal a missing Sync or a Close placed after the Rename; this does.
+//
+// Anchors are located by SHAPE: calls are named by package function (`os.CreateTemp`, `os.Rename`, …) or by METHOD name on
+// whatever variable holds the file (`.Write`, `.Sync`, …); parameters and receivers are referred to by position, never by
+// their names (renaming `tmp`, `path`, `ks`, `kb` is a harmless refactor); calls to unexported helpers of the same file are
+// followed one level. A fact whose anchor is gone or has a shape not understood is UNAVAILABLE (`none`), not wrong.
 func init() {
 	extractors["C18"] = func(o *Out) {
-		boolLean := func(b bool) string {
-			if b {
-				return "true"
-			}
-			return "false"
-		}
-		f := o.ParseFile("util/atomicfile.go")
-		fd := FindFunc(f, "", "WriteFileAtomic")
-		mainOps, cleanupOps := []string{}, []string{}
-		tempSameDir, renameOnto, removesTemp, deferAfterCreate := false, false, false, false
 		norm := func(c *ast.CallExpr) string {
 			s := Src(c.Fun)
 			switch {
@@ -41,18 +36,51 @@ func init() {
 			}
 			return ""
 		}
-		if fd != nil {
-			var lits []*ast.FuncLit
+		paramName := func(fd *ast.FuncDecl, i int) string { // name of the i-th parameter
+			k := 0
+			for _, f := range fd.Type.Params.List {
+				for _, n := range f.Names {
+					if k == i {
+						return n.Name
+					}
+					k++
+				}
+			}
+			return ""
+		}
+		recvName := func(fd *ast.FuncDecl) string {
+			if fd.Recv != nil && len(fd.Recv.List) == 1 && len(fd.Recv.List[0].Names) == 1 {
+				return fd.Recv.List[0].Names[0].Name
+			}
+			return ""
+		}
+
+		// ------------------------------------------------------------------ util.WriteFileAtomic
+		f := o.ParseFile("util/atomicfile.go")
+		fd := FindFunc(f, "", "WriteFileAtomic")
+		mainOps, cleanupOps := []string{}, []string{}
+		tempSameDir, renameOnto, removesTemp, deferAfterCreate := false, false, false, false
+		located := fd != nil && fd.Type.Params != nil && paramName(fd, 0) != ""
+		if located {
+			path := paramName(fd, 0)
+			tmpVar := "" // the variable the temp file is bound to: LHS of the os.CreateTemp assignment
+			Walk(fd.Body, func(n ast.Node) bool {
+				if a, ok := n.(*ast.AssignStmt); ok && len(a.Rhs) == 1 && len(a.Lhs) >= 1 {
+					if c, ok := a.Rhs[0].(*ast.CallExpr); ok && Src(c.Fun) == "os.CreateTemp" {
+						tmpVar = Src(a.Lhs[0])
+					}
+				}
+				return true
+			})
 			Walk(fd.Body, func(n ast.Node) bool {
 				if d, ok := n.(*ast.DeferStmt); ok {
 					if fl, ok := d.Call.Fun.(*ast.FuncLit); ok {
-						lits = append(lits, fl)
 						deferAfterCreate = len(mainOps) == 1 && mainOps[0] == "os.CreateTemp"
 						Walk(fl.Body, func(m ast.Node) bool {
 							if c, ok := m.(*ast.CallExpr); ok {
 								if nm := norm(c); nm != "" {
 									cleanupOps = append(cleanupOps, nm)
-									if nm == "os.Remove" && len(c.Args) == 1 && strings.HasSuffix(Src(c.Args[0]), ".Name()") {
+									if nm == "os.Remove" && len(c.Args) == 1 && tmpVar != "" && Src(c.Args[0]) == tmpVar+".Name()" {
 										removesTemp = true
 									}
 								}
@@ -65,88 +93,159 @@ func init() {
 				if c, ok := n.(*ast.CallExpr); ok {
 					if nm := norm(c); nm != "" {
 						mainOps = append(mainOps, nm)
-						if nm == "os.CreateTemp" && len(c.Args) == 2 && Src(c.Args[0]) == "filepath.Dir(path)" {
+						if nm == "os.CreateTemp" && len(c.Args) == 2 && Src(c.Args[0]) == "filepath.Dir("+path+")" {
 							tempSameDir = true
 						}
-						if nm == "os.Rename" && len(c.Args) == 2 && strings.HasSuffix(Src(c.Args[0]), ".Name()") && Src(c.Args[1]) == "path" {
+						if nm == "os.Rename" && len(c.Args) == 2 && tmpVar != "" && Src(c.Args[0]) == tmpVar+".Name()" && Src(c.Args[1]) == path {
 							renameOnto = true
+						}
+					} else if id, ok := c.Fun.(*ast.Ident); ok && f != nil { // an unexported helper of the same file: its calls, in place
+						for _, d := range f.Decls {
+							if h, ok := d.(*ast.FuncDecl); ok && h.Recv == nil && h.Name.Name == id.Name && h.Body != nil && h != fd {
+								Walk(h.Body, func(m ast.Node) bool {
+									if hc, ok := m.(*ast.CallExpr); ok {
+										if nm := norm(hc); nm != "" {
+											mainOps = append(mainOps, nm)
+										}
+									}
+									return true
+								})
+							}
 						}
 					}
 				}
 				return true
 			})
+			if len(mainOps) == 0 { // the body no longer issues file-system calls itself (moved into helpers): not understood
+				located = false
+			}
+		}
+		if !located {
+			o.Unavailable("atomicWrite", "util.WriteFileAtomic not found, or its body makes no file-system call itself")
 		}
 		o.Facts["atomic_main"] = mainOps
 		o.Facts["atomic_cleanup"] = cleanupOps
-		o.Lean.WriteString("/-- file-system calls of `util.WriteFileAtomic` in source order (success path) -/\n")
-		o.Lean.WriteString("def atomicMain : List String := " + LeanStrList(mainOps) + "\n\n")
-		o.Lean.WriteString("/-- calls inside its deferred error handler -/\n")
-		o.Lean.WriteString("def atomicCleanup : List String := " + LeanStrList(cleanupOps) + "\n\n")
-		o.Lean.WriteString("/-- the temp file is created in `filepath.Dir(path)` (same file system: rename is atomic) -/\n")
-		o.Lean.WriteString("def tempInSameDir : Bool := " + boolLean(tempSameDir) + "\n")
-		o.Lean.WriteString("/-- `os.Rename(tmp.Name(), path)` -/\ndef renameOntoPath : Bool := " + boolLean(renameOnto) + "\n")
-		o.Lean.WriteString("/-- the handler removes `tmp.Name()` -/\ndef removesTemp : Bool := " + boolLean(removesTemp) + "\n")
-		o.Lean.WriteString("/-- the handler is registered right after the successful CreateTemp -/\ndef deferAfterCreate : Bool := " + boolLean(deferAfterCreate) + "\n\n")
+		b := func(x bool) string {
+			if x {
+				return "true"
+			}
+			return "false"
+		}
+		o.Lean.WriteString("/-- `util.WriteFileAtomic`: (file-system calls of the success path in source order, calls of the deferred error handler) -/\n")
+		o.Lean.WriteString("def atomicCalls : Option (List String × List String) := " + LeanOpt(located, LeanStrList(mainOps)+", "+LeanStrList(cleanupOps)) + "\n\n")
+		o.Lean.WriteString("/-- (temp file created in `filepath.Dir(<path parameter>)`, `os.Rename(<temp>.Name(), <path parameter>)`, the handler\n    removes `<temp>.Name()`, the handler is registered right after the successful CreateTemp) -/\n")
+		o.Lean.WriteString("def atomicPaths : Option (Bool × Bool × Bool × Bool) := " +
+			LeanOpt(located, b(tempSameDir)+", "+b(renameOnto)+", "+b(removesTemp)+", "+b(deferAfterCreate)) + "\n\n")
 
-		// the three Store functions: marshal, then WriteFileAtomic(<store>.path, …); nothing else touches the file system
-		type site struct{ file, recv, name, path string }
+		// ------------------------------------------------------------------ the three Store functions
+		// what each does to the file system: every os.* / file-method call and every util.WriteFileAtomic, following calls to
+		// unexported functions / methods of the same file one level; `own-path` = WriteFileAtomic's first argument is a field
+		// of the receiver
+		type site struct{ file, recv, name string }
 		sites := []site{
-			{"keyshare/ecdsa.go", "ECDSAKeyshareStore", "StoreKeyshare", "ks.path"},
-			{"keyshare/frost.go", "FrostKeyshareStore", "StoreKeyshare", "ks.path"},
-			{"topology/store.go", "TopologyStore", "StoreTopology", "ts.path"},
+			{"keyshare/ecdsa.go", "ECDSAKeyshareStore", "StoreKeyshare"},
+			{"keyshare/frost.go", "FrostKeyshareStore", "StoreKeyshare"},
+			{"topology/store.go", "TopologyStore", "StoreTopology"},
 		}
 		rows := []string{}
+		storesOK := true
 		for _, st := range sites {
 			sf := o.ParseFile(st.file)
 			sd := FindFunc(sf, st.recv, st.name)
+			if sd == nil {
+				storesOK = false
+				o.Unavailable("storeFsCalls", st.recv+"."+st.name+" not found")
+				continue
+			}
+			rv := recvName(sd)
 			calls := []string{}
-			pathOK := false
-			if sd != nil {
-				Walk(sd.Body, func(n ast.Node) bool {
+			var collect func(body ast.Node, depth int)
+			collect = func(body ast.Node, depth int) {
+				Walk(body, func(n ast.Node) bool {
 					c, ok := n.(*ast.CallExpr)
 					if !ok {
 						return true
 					}
 					s := Src(c.Fun)
 					switch {
-					case s == "json.Marshal":
-						calls = append(calls, s)
 					case s == "util.WriteFileAtomic":
 						calls = append(calls, s)
-						pathOK = len(c.Args) == 3 && Src(c.Args[0]) == st.path
+						if len(c.Args) == 3 {
+							arg := c.Args[0]
+							if id, ok := arg.(*ast.Ident); ok { // a local: look through one definition `x := <recv>.<field>`
+								Walk(sd.Body, func(m ast.Node) bool {
+									if a, ok := m.(*ast.AssignStmt); ok && len(a.Lhs) == 1 && len(a.Rhs) == 1 && Src(a.Lhs[0]) == id.Name {
+										arg = a.Rhs[0]
+									}
+									return true
+								})
+							}
+							if sel, ok := arg.(*ast.SelectorExpr); ok && rv != "" && Src(sel.X) == rv {
+								calls = append(calls, "own-path")
+							}
+						}
 					case norm(c) != "":
 						calls = append(calls, norm(c))
+					case depth == 0:
+						// a helper of the same file: plain function `helper(…)` or method `<recv>.helper(…)`
+						name := ""
+						if id, ok := c.Fun.(*ast.Ident); ok {
+							name = id.Name
+						} else if sel, ok := c.Fun.(*ast.SelectorExpr); ok && rv != "" && Src(sel.X) == rv {
+							name = sel.Sel.Name
+						}
+						if name != "" && sf != nil {
+							for _, d := range sf.Decls {
+								if h, ok := d.(*ast.FuncDecl); ok && h.Name.Name == name && h.Body != nil && h != sd {
+									collect(h.Body, 1)
+								}
+							}
+						}
 					}
 					return true
 				})
 			}
-			if pathOK {
-				calls = append(calls, "path-ok")
-			}
-			o.Facts["store_calls:"+st.file] = calls
+			collect(sd.Body, 0)
+			o.Facts["store_fs_calls:"+st.file] = calls
 			rows = append(rows, LeanStrList(calls))
 		}
-		// LockKeyshare / UnlockKeyshare of both key-share stores: every call they make (they must only take / release the mutex)
+		o.Lean.WriteString("/-- per Store function (ECDSA, FROST, topology): everything it does to the file system, in source order (helpers of the\n    same file followed one level); `own-path` = the first argument of WriteFileAtomic is a field of the receiver -/\n")
+		o.Lean.WriteString("def storeFsCalls : Option (List (List String)) := " + LeanOpt(storesOK, "["+strings.Join(rows, ", ")+"]") + "\n\n")
+
+		// ------------------------------------------------------------------ Lock / Unlock of both key-share stores
+		// every call they make, with the receiver and the mutex field abstracted: `recv._.Lock` = <receiver>.<some field>.Lock()
 		lockRows := []string{}
+		locksOK := true
 		for _, st := range []struct{ file, recv string }{{"keyshare/ecdsa.go", "ECDSAKeyshareStore"}, {"keyshare/frost.go", "FrostKeyshareStore"}} {
 			sf := o.ParseFile(st.file)
 			for _, name := range []string{"LockKeyshare", "UnlockKeyshare"} {
-				calls := []string{}
-				if fd := FindFunc(sf, st.recv, name); fd != nil {
-					Walk(fd.Body, func(n ast.Node) bool {
-						if c, ok := n.(*ast.CallExpr); ok {
-							calls = append(calls, Src(c.Fun))
-						}
-						return true
-					})
+				fd := FindFunc(sf, st.recv, name)
+				if fd == nil {
+					locksOK = false
+					o.Unavailable("lockCalls", st.recv+"."+name+" not found")
+					continue
 				}
+				rv := recvName(fd)
+				calls := []string{}
+				Walk(fd.Body, func(n ast.Node) bool {
+					if c, ok := n.(*ast.CallExpr); ok {
+						s := Src(c.Fun)
+						if sel, ok := c.Fun.(*ast.SelectorExpr); ok {
+							if inner, ok := sel.X.(*ast.SelectorExpr); ok && rv != "" && Src(inner.X) == rv {
+								s = "recv._." + sel.Sel.Name
+							} else if rv != "" && Src(sel.X) == rv {
+								s = "recv." + sel.Sel.Name
+							}
+						}
+						calls = append(calls, s)
+					}
+					return true
+				})
 				o.Facts["lock_calls:"+st.recv+"."+name] = calls
 				lockRows = append(lockRows, LeanStrList(calls))
 			}
 		}
-		o.Lean.WriteString("/-- every call made by ECDSA Lock, ECDSA Unlock, FROST Lock, FROST Unlock -/\n")
-		o.Lean.WriteString("def lockCalls : List (List String) := [" + strings.Join(lockRows, ", ") + "]\n\n")
-		o.Lean.WriteString("/-- per Store function (ECDSA, FROST, topology): marshal / file-system calls in source order; `path-ok` = the\n    first argument of WriteFileAtomic is the store's own path -/\n")
-		o.Lean.WriteString("def storeCalls : List (List String) := [" + strings.Join(rows, ", ") + "]\n")
+		o.Lean.WriteString("/-- every call made by ECDSA Lock, ECDSA Unlock, FROST Lock, FROST Unlock (`recv._.M` = a method M of a field of the receiver) -/\n")
+		o.Lean.WriteString("def lockCalls : Option (List (List String)) := " + LeanOpt(locksOK, "["+strings.Join(lockRows, ", ")+"]") + "\n")
 	}
 }
